@@ -462,36 +462,60 @@ func (o *Outcome) deriveIDs(sc *Scenario) {
 		}
 		switch e.Tok.Kind {
 		case "start":
-			// the SendX family places its id in the first start token of the call
-			// (whatever the depth, should an earlier call have left an element open)
-			if e.Call >= 0 && e.Call < len(sc.Calls) && !firstSeen[e.Call] {
-				firstSeen[e.Call] = true
-				if c := sc.Calls[e.Call]; c.Kind == "sendx" {
-					for _, a := range e.Tok.Attrs {
-						if a.Name.Local == "id" && !src[a.Value] {
-							c.NewID = a.Value
-						}
-					}
-					depth++
-					continue
+			// the ids that are not the caller's, in attribute order
+			var fresh []string
+			for _, a := range e.Tok.Attrs {
+				if a.Name.Local == "id" && !src[a.Value] {
+					fresh = append(fresh, a.Value)
 				}
 			}
-			if depth == 0 {
-				for _, a := range e.Tok.Attrs {
-					if a.Name.Local == "id" && !src[a.Value] {
-						if c := byMarker[markerOf(e.Tok)]; e.Call < 0 && c != nil && c.Kind == "sendx" {
-							c.NewID = a.Value
-						} else {
-							o.IDs = append(o.IDs, a.Value)
-						}
-					}
+			// the SendX family places its id in the first start token of the call
+			// (whatever the depth, should an earlier call have left an element open);
+			// the stanza encoder appends its own at the top level only
+			var c *Call
+			switch {
+			case e.Call >= 0 && e.Call < len(sc.Calls):
+				if !firstSeen[e.Call] {
+					firstSeen[e.Call] = true
+					c = sc.Calls[e.Call]
 				}
+			case depth == 0:
+				c = byMarker[markerOf(e.Tok)]
+			}
+			if c != nil && c.Kind == "sendx" && drawsID(c) && len(fresh) > 0 {
+				c.NewID, fresh = fresh[0], fresh[1:]
+			}
+			if depth == 0 {
+				o.IDs = append(o.IDs, fresh...)
 			}
 			depth++
 		case "end":
 			depth--
 		}
 	}
+}
+
+// drawsID: SendIQ / SendMessage / SendPresence generate an id for this call's
+// stream (an independent restatement of their use of getIDTyp: the last
+// attribute with local name id seen before both an id and a type were found
+// has an empty value, or there is none).
+func drawsID(c *Call) bool {
+	if len(c.Toks) == 0 || c.Toks[0].Kind != "start" {
+		return false
+	}
+	haveID, haveTyp, id := false, false, ""
+	for _, a := range c.Toks[0].Attrs {
+		switch a.Name.Local {
+		case "id":
+			haveID, id = true, a.Value
+		case "type":
+			haveTyp = true
+		}
+		if haveID && haveTyp {
+			break
+		}
+	}
+	return !haveID || id == ""
 }
 
 // Case renders the scenario as a model case: calls in lock order, the observed
